@@ -4,6 +4,9 @@ seeded/*/meta.json and seeded/RESULTS.md."""
 import json, glob, os, re
 
 NOTES = {
+ "C03-13": "missed at first: rows 'setAdmin of a name that has an administrator' with the administrator alone and with the administrator plus the new one",
+ "C02-13": "ended as a harness error at first (Balance could not be deployed): deployments are co-signed by the chain's validators too, and the validators' account is tried as a signer of every Alphabet-only method",
+ "C13-17": "missed at first: 150-round sleeps also placed one, two and three rounds before the default designation round",
  "C13-15": "missed at first (needs three simultaneous deviations on four members): schedule shape early-signer-leaves added (one member signs the designation and goes away, the others sleep through the validity window of the shared data)",
  "C19-12": "missed at first (needs a decision pending ahead of the cheque and a fourth, late vote: depth 6): seventh ledger exploration neofs-gas-legacy-n4-votes over the vote-collected decisions only, depth 7",
  "C04-11": "missed at first: a container whose length byte in front of the owner is 128",
